@@ -407,7 +407,7 @@ def replay(grog, history, opts, scratch_root, literal_clean=True):
                     newdir = os.path.join(W.root, hashlib.sha256(new_ws.encode()).hexdigest()[:16] + "-" + os.path.basename(new_ws))
                     os.rename(os.path.dirname(old_cache), newdir)
             elif kind == "taint":
-                p = W.grog_cmd(["taint", f"//pkg:{act['t']}"])
+                p = W.grog_cmd(["taint", "//..." if act["t"] == "ALL" else f"//pkg:{act['t']}"])
                 if p is None or p.returncode != 0:
                     note(i, "taint-command-failed", t=act["t"], err=(p.stderr[-300:] if p else "timeout"))
             elif kind == "perturb":
